@@ -10,6 +10,7 @@ import (
 	"os"
 	"strings"
 	"sync"
+	"sync/atomic"
 	"time"
 
 	"github.com/tidwall/tile38/internal/server"
@@ -23,7 +24,7 @@ type folScenario struct {
 	LeaderInit int      `json:"linit"`   // batches the leader holds before anything else
 	Prefix     int      `json:"prefix"`  // how many of them the follower already has (true prefix of the leader's log)
 	Foreign    int      `json:"foreign"` // batches of unrelated data the follower wrote on its own afterwards
-	Steps      []string `json:"steps"`   // lwrite | drop | frestart | lshrink | sync
+	Steps      []string `json:"steps"`   // lwrite | drop | frestart | lshrink | refollow | owrite | sync
 	Small      bool     `json:"small"`   // batches without padding (logs stay below the checksum window)
 }
 
@@ -40,6 +41,20 @@ type cutProxy struct {
 	target string
 	mu     sync.Mutex
 	conns  map[net.Conn]bool
+	down   atomic.Int64 // bytes forwarded from the leader towards the follower
+	live   atomic.Int64 // connections being forwarded
+}
+
+// countWriter counts what io.Copy hands to it.
+type countWriter struct {
+	w io.Writer
+	n *atomic.Int64
+}
+
+func (c countWriter) Write(b []byte) (int, error) {
+	n, err := c.w.Write(b)
+	c.n.Add(int64(n))
+	return n, err
 }
 
 func newCutProxy(target string) (*cutProxy, error) {
@@ -64,7 +79,8 @@ func newCutProxy(target string) (*cutProxy, error) {
 			p.conns[u] = true
 			p.mu.Unlock()
 			go func() { io.Copy(u, c); u.Close(); c.Close() }()
-			go func() { io.Copy(c, u); u.Close(); c.Close() }()
+			p.live.Add(1)
+			go func() { io.Copy(countWriter{c, &p.down}, u); u.Close(); c.Close(); p.live.Add(-1) }()
 		}
 	}()
 	return p, nil
@@ -145,6 +161,45 @@ func folRunOne(si int, sc *folScenario) ([]folMismatch, map[string]int, error) {
 		return nil, nil, err
 	}
 	defer proxy.close()
+	// a second leader for scenarios that re-point the follower (FOLLOW to another host without a restart)
+	type folLeader struct {
+		srv    *t38.Srv
+		conn   *t38.Conn
+		proxy  *cutProxy
+		who    string
+		writes int
+	}
+	ldr := [2]*folLeader{{srv: leader, conn: lc, proxy: proxy, who: "L"}, nil}
+	cur := 0 // index of the leader the follower is configured to follow (guarded by hmu)
+	needSecond := false
+	for _, st := range sc.Steps {
+		if st == "refollow" {
+			needSecond = true
+		}
+	}
+	if needSecond {
+		l2, err := t38.Start(t38.Options{})
+		if err != nil {
+			return nil, nil, err
+		}
+		defer l2.StopAndRemove()
+		c2, err := l2.Dial()
+		if err != nil {
+			return nil, nil, err
+		}
+		defer c2.Close()
+		p2, err := newCutProxy(l2.Addr)
+		if err != nil {
+			return nil, nil, err
+		}
+		defer p2.close()
+		ldr[1] = &folLeader{srv: l2, conn: c2, proxy: p2, who: "M"}
+		// what the other leader holds initially (OLog of the specification: one batch)
+		ldr[1].writes++
+		if err := folBatch(c2, "M", 1, sc.Small); err != nil {
+			return nil, nil, err
+		}
+	}
 	// the follower, with a hook on its caught-up transitions
 	fport := t38.FreePort()
 	var hmu sync.Mutex
@@ -158,13 +213,14 @@ func folRunOne(si int, sc *folScenario) ([]folMismatch, map[string]int, error) {
 		hmu.Lock()
 		on := checkEarly
 		cuEvents++
+		curLeader := ldr[cur].srv
 		hmu.Unlock()
 		if !on {
 			return
 		}
 		// the instant before the follower reports caught-up: it must already hold everything the
 		// (quiescent) leader holds
-		if d := diffStates(leader.S.VerifDump(true), s.VerifDump(true), 1<<62); len(d) > 0 {
+		if d := diffStates(curLeader.S.VerifDump(true), s.VerifDump(true), 1<<62); len(d) > 0 {
 			hmu.Lock()
 			early = append(early, strings.Join(d, "; "))
 			hmu.Unlock()
@@ -185,6 +241,9 @@ func folRunOne(si int, sc *folScenario) ([]folMismatch, map[string]int, error) {
 					return
 				case <-time.After(200 * time.Millisecond):
 					proxy.cut()
+					if ldr[1] != nil {
+						ldr[1].proxy.cut()
+					}
 				}
 			}
 		}()
@@ -201,11 +260,11 @@ func folRunOne(si int, sc *folScenario) ([]folMismatch, map[string]int, error) {
 		return nil, nil, err
 	}
 	defer func() { fc.Close() }()
-	lwrites := 0
-	lwrite := func() error {
-		lwrites++
-		return folBatch(lc, "L", lwrites, sc.Small)
+	writeOn := func(l *folLeader) error {
+		l.writes++
+		return folBatch(l.conn, l.who, l.writes, sc.Small)
 	}
+	lwrite := func() error { return writeOn(ldr[cur]) }
 	waitCaughtUp := func(d time.Duration) bool {
 		deadline := time.Now().Add(d)
 		for time.Now().Before(deadline) {
@@ -218,7 +277,7 @@ func folRunOne(si int, sc *folScenario) ([]folMismatch, map[string]int, error) {
 		return false
 	}
 	follow := func() error {
-		r, err := fc.Do("FOLLOW", "127.0.0.1", fmt.Sprint(proxy.port()))
+		r, err := fc.Do("FOLLOW", "127.0.0.1", fmt.Sprint(ldr[cur].proxy.port()))
 		if err != nil || r.Kind == '-' {
 			return fmt.Errorf("FOLLOW: %v %v", r, err)
 		}
@@ -301,7 +360,7 @@ func folRunOne(si int, sc *folScenario) ([]folMismatch, map[string]int, error) {
 		last, stable := "", 0
 		for time.Now().Before(deadline) && stable < 15 {
 			fs := serverInfo(fc)["aof_size"]
-			if fs == serverInfo(lc)["aof_size"] {
+			if fs == serverInfo(ldr[cur].conn)["aof_size"] {
 				break
 			}
 			if fs == last {
@@ -320,9 +379,9 @@ func folRunOne(si int, sc *folScenario) ([]folMismatch, map[string]int, error) {
 		for _, d := range e {
 			out = append(out, folMismatch{si, step, "early", "the follower was about to report caught-up while its dataset still differed from the quiescent leader's: " + d})
 		}
-		if d := diffStates(leader.S.VerifDump(true), follower.S.VerifDump(true), 1<<62); len(d) > 0 {
+		if d := diffStates(ldr[cur].srv.S.VerifDump(true), follower.S.VerifDump(true), 1<<62); len(d) > 0 {
 			out = append(out, folMismatch{si, step, "copy", fmt.Sprintf("follower reports caught-up (aof_size leader %s follower %s) but its dataset is not the leader's: %s",
-				serverInfo(lc)["aof_size"], serverInfo(fc)["aof_size"], strings.Join(d, "; "))})
+				serverInfo(ldr[cur].conn)["aof_size"], serverInfo(fc)["aof_size"], strings.Join(d, "; "))})
 		}
 	}
 	steps := append(append([]string{}, sc.Steps...), "sync")
@@ -375,11 +434,44 @@ func folRunOne(si int, sc *folScenario) ([]folMismatch, map[string]int, error) {
 			needEvents = cuEvents + 1
 			hmu.Unlock()
 			pending = true
-			if r, err := lc.Do("AOFSHRINK"); err != nil || r.Kind != '+' {
+			if r, err := ldr[cur].conn.Do("AOFSHRINK"); err != nil || r.Kind != '+' {
 				return nil, nil, fmt.Errorf("AOFSHRINK: %v %v", r, err)
 			}
 			time.Sleep(400 * time.Millisecond)
 			stats["lshrinks"]++
+		case "refollow":
+			// FOLLOW <other leader> on a follower whose session with the present leader is idle in its read
+			sync(i)
+			hmu.Lock()
+			needEvents = cuEvents + 1
+			cur = 1 - cur
+			hmu.Unlock()
+			pending = true
+			if err := follow(); err != nil {
+				return nil, nil, err
+			}
+			stats["refollows"]++
+		case "owrite":
+			// the leader that is no longer followed logs another batch; wait until its replication
+			// connection (if one is still open) has carried it towards the follower
+			if pending {
+				sync(i)
+			}
+			old := ldr[1-cur]
+			before := old.proxy.down.Load()
+			sz0 := serverInfo(old.conn)["aof_size"]
+			if err := writeOn(old); err != nil {
+				return nil, nil, err
+			}
+			var a, b int64
+			fmt.Sscan(sz0, &a)
+			fmt.Sscan(serverInfo(old.conn)["aof_size"], &b)
+			deadline := time.Now().Add(2 * time.Second)
+			for time.Now().Before(deadline) && old.proxy.down.Load()-before < b-a && old.proxy.live.Load() > 0 {
+				time.Sleep(10 * time.Millisecond)
+			}
+			time.Sleep(100 * time.Millisecond)
+			stats["owrites"]++
 		}
 	}
 	stats["scenarios"]++
